@@ -103,4 +103,85 @@ theorem ptrParse_safe (path : Bytes) (h : Term path 0) : ptrParse path ≠ .oob 
           | err e => simp
           | ok r => simp
 
+/-- number of `/` among `path[i .. len)` -/
+def slashes (path : Bytes) (i len : Nat) : Nat :=
+  if i < len then (if path[i]? = some 47 then 1 else 0) + slashes path (i + 1) len else 0
+termination_by len - i
+
+theorem slashes_end (path : Bytes) (i len : Nat) (h : len ≤ i) : slashes path i len = 0 := by
+  rw [slashes]; simp; omega
+
+theorem slashes_slash (path : Bytes) (i len : Nat) (h : i < len) (hc : path[i]? = some 47) :
+    slashes path i len = 1 + slashes path (i + 1) len := by
+  rw [slashes]; simp [h, hc]
+
+theorem slashes_other (path : Bytes) (i len c : Nat) (h : i < len) (hc : path[i]? = some c) (hn : c ≠ 47) :
+    slashes path i len = slashes path (i + 1) len := by
+  rw [slashes]; simp [h, hc, hn]
+
+theorem ptrPre_count (path : Bytes) (i cnt len cnt' : Nat)
+    (hr : ptrPre true path i cnt = .ok (len, cnt')) : cnt' = cnt + slashes path i len ∧ i ≤ len := by
+  fun_induction ptrPre true path i cnt
+  all_goals first
+    | (simp at hr; done)
+    | grind [slashes_end, slashes_slash, slashes_other]
+
+theorem PathOk.zero_at {path : Bytes} {len i : Nat} (hp : PathOk path len) (hi : i ≤ len) (hc : path[i]? = some 0) : i = len := by
+  rcases Nat.lt_or_eq_of_le hi with hlt | heq
+  · obtain ⟨c, hc', hz, _⟩ := hp.2 i hlt
+    rw [hc] at hc'; simp at hc'; omega
+  · exact heq
+
+theorem ptrFill_assigned (path : Bytes) (jpcnt len : Nat) (hp : PathOk path len)
+    (i j k cnt : Nat) (data : Bytes) (offs : List Nat) (hi : i ≤ len)
+    (hoff : offs.length = cnt + 1) (hcnt : cnt + 1 + slashes path i len = jpcnt)
+    (offs' : List Nat) (data' : Bytes)
+    (hr : ptrFill path jpcnt i j k cnt data offs = .ok (offs', data')) : offs'.length = jpcnt := by
+  fun_induction ptrFill path jpcnt i j k cnt data offs
+  all_goals first
+    | (simp at hr; done)
+    | grind [→ PathOk.ne_none, → PathOk.nz, → PathOk.tilde, → PathOk.zero_at, slashes_end, slashes_slash, slashes_other]
+
+
+/-- every `jp->n[]` slot is assigned: the fill loops produce exactly `jp->cnt` segments -/
+theorem ptrParse_assigned (path : Bytes) (h : Term path 0) (r : PtrOk) (hr : ptrParse path = .ok r) :
+    r.assigned = r.cnt ∧ r.segs.length = r.cnt := by
+  unfold ptrParse ptrParseG at hr
+  obtain ⟨c0, h0⟩ := h.read
+  rw [h0] at hr; dsimp only at hr
+  split at hr
+  · simp only [R.ok.injEq] at hr; subst hr; simp
+  · split at hr
+    · simp at hr
+    · next hz hs =>
+      have hs47 : c0 = 47 := by omega
+      subst hs47
+      cases hpre : ptrPre true path 0 0 with
+      | oob => rw [hpre] at hr; simp at hr
+      | err e => rw [hpre] at hr; simp at hr
+      | ok pr =>
+        obtain ⟨len, cnt⟩ := pr
+        rw [hpre] at hr; dsimp only at hr
+        have hok := (ptrPre_ok path 0 0 len cnt (by intro t ht; omega) hpre).1
+        have hcount := (ptrPre_count path 0 0 len cnt hpre).1
+        have h1 : 1 ≤ len := hok.nz (Nat.zero_le _) h0 (by omega)
+        have hsl := slashes_slash path 0 len (by omega) h0
+        rw [Nat.zero_add] at hsl
+        obtain ⟨cl, hcl⟩ := hok.rd (show len - 1 ≤ len by omega)
+        have hlast : (if len > 1 then path[len - 1]? else some 1) = some (if len > 1 then cl else 1) := by
+          split <;> simp [hcl]
+        rw [hlast] at hr; dsimp only at hr
+        generalize (if len > 1 then cl else 1) = last at hr
+        split at hr
+        · simp at hr
+        · cases hf : ptrFill path cnt 1 0 0 0 (List.replicate (Gen.JBL_PTR_SIZEOF - Gen.JBL_PTR_OFF_N + len) ptrFillByte) [0] with
+          | oob => rw [hf] at hr; simp at hr
+          | err e => rw [hf] at hr; simp at hr
+          | ok fr =>
+            obtain ⟨offs, data⟩ := fr
+            rw [hf] at hr; simp only [R.ok.injEq] at hr
+            have hlen := ptrFill_assigned path cnt len hok 1 0 0 0 _ [0] h1 (by simp) (by omega) offs data hf
+            subst hr
+            simp [hlen]
+
 end IwModel.Txt
